@@ -432,10 +432,8 @@ def i_mulscc(ins, fmap):
     multiplier = fmap(src2)
     _rs1 = fmap(src1 >> 1)
     _rs1[31:32] = fmap(nf ^ vf)
-    if fmap(y[0:1]) == 0:
-        op2 = cst(0, 32)
-    else:
-        op2 = fmap(src2)
+    # (a python 'if' on a symbolic condition would silently take one branch)
+    op2 = tst(fmap(y[0:1]) == 0, cst(0, 32), fmap(src2)).simplify()
     _r, carry, overflow = AddWithCarry(_rs1, op2)
     # update icc:
     fmap[nf] = _r[31:32]
